@@ -763,3 +763,24 @@ Proof.
   intros Hd Hi rest. generalize (pinit st) Hi. induction rest as [|j rest IH]; intros l Hl; [constructor|].
   cbn [loads]. rewrite Hd. replace (l - 0) with l by lia. constructor; [exact Hl|apply IH; exact Hl].
 Qed.
+
+(* ====================================================================== *)
+(* 11. C04_default_exact in the vocabulary of zsys                          *)
+(* ====================================================================== *)
+Theorem sys_default_exact s S :
+  R_nonneg (zs_cols s) (zs_R s) -> coeff_sum (zs_cols s) (zs_c s) (zs_Qo s) <= S ->
+  (exists z, sys_feasible s z) ->
+  (forall x, sys_qubo_min s S x <->
+             (sys_feasible s x /\ forall y, sys_feasible s y -> sys_value s x <= sys_value s y)) /\
+  (forall x y, sys_qubo_min s S x -> sys_feasible s y ->
+               (forall z, sys_feasible s z -> sys_value s y <= sys_value s z) ->
+               sys_qubo_value s S x = sys_value s y).
+Proof.
+  intros HR HS (z & Hz).
+  destruct (default_exact (zs_cols s) (zs_rows s) (zs_A s) (zs_b s) (zs_R s) (zs_c s) (zs_Qo s) S HR HS)
+    as [Hsets Hval]; [exists z; exact Hz|].
+  split.
+  - intros x. rewrite <- constrained_opt_sys. apply Hsets.
+  - intros x y Hx Hy Hmin. rewrite sys_qubo_value_default. apply (Hval x y Hx).
+    apply constrained_opt_sys. split; assumption.
+Qed.
